@@ -1,1 +1,547 @@
-/-! Property theorems for C02 (not built yet). -/
+import Cellml.C02.Lemmas
+
+/-! # C02 — MathML → SymPy transpilation preserves meaning for every supported operator
+
+    Model: `C02.transpile : Mml → Except Err Sy` (lean/Cellml/C02/Model.lean), a branch-by-branch model of
+    `cellmlmanip.parser.Transpiler` whose dispatch is driven by the GENERATED tables `Cellml.Gen.mathmlOps`,
+    `Cellml.Gen.naryRelations`, `Cellml.Gen.handlerKeys` (re-extracted from parser.py on every run).
+    Semantics (lean/Cellml/C02/Semantics.lean): `evalMml` — MathML 2 chapter 4 written on the tree; `evalSy` — the value
+    of the SymPy term built; both over `Rat`, transcendental functions / real powers / named constants uninterpreted.
+
+    1. `table_*`            one theorem per tag: the SymPy class of the generated table computes what MathML 2 says
+                            the element means (`rem ↦ Mod` is the proved exception); key set; n-ary relations; handlers.
+    2. `transpile_sound_partial`  every tree, every depth, every interpretation: transpiled term and tree have the same
+                            value — outside the two regions where that is false of the code, each with a proved
+                            counterexample (`transpile_sound_fails_nullary`, `transpile_sound_fails_rem`).
+    3. `transpile_rejects_*` unknown element, container arities, `<cn>` type/shape/text, operand counts ⇒ error;
+                            the inputs that are NOT rejected are theorems too (`nullary_apply_returns_operator`,
+                            `ln_two_operands_accepted`, `plain_operand_as_qualifier`, `qualifiers_are_transparent`,
+                            `other_accepted_malformed_inputs`).
+    The tie to the Python code is the correspondence check harness/props/c02.py. -/
+
+namespace Cellml.Props.C02
+open _root_.C02 Cellml
+
+/-! ## 1. The generated operator table means what MathML 2 says -/
+
+/-- the class the GENERATED table gives for `tag` computes what MathML 2 says `tag` means -/
+def entrySound (tag : String) : Bool :=
+  match Gen.mathmlOps.lookup tag, mmlMeaning tag with
+  | some c, some m => syMeaning c == m
+  | _, _ => false
+
+macro "table_entry " n:ident t:str : command => `(theorem $n : entrySound $t = true := by decide +kernel)
+
+table_entry table_abs "abs"
+table_entry table_and "and"
+table_entry table_arccos "arccos"
+table_entry table_arccosh "arccosh"
+table_entry table_arccot "arccot"
+table_entry table_arccoth "arccoth"
+table_entry table_arccsc "arccsc"
+table_entry table_arccsch "arccsch"
+table_entry table_arcsec "arcsec"
+table_entry table_arcsech "arcsech"
+table_entry table_arcsin "arcsin"
+table_entry table_arcsinh "arcsinh"
+table_entry table_arctan "arctan"
+table_entry table_arctanh "arctanh"
+table_entry table_ceiling "ceiling"
+table_entry table_cos "cos"
+table_entry table_cosh "cosh"
+table_entry table_cot "cot"
+table_entry table_coth "coth"
+table_entry table_csc "csc"
+table_entry table_csch "csch"
+table_entry table_eq "eq"
+table_entry table_exp "exp"
+table_entry table_exponentiale "exponentiale"
+table_entry table_false "false"
+table_entry table_floor "floor"
+table_entry table_geq "geq"
+table_entry table_gt "gt"
+table_entry table_infinity "infinity"
+table_entry table_leq "leq"
+table_entry table_ln "ln"
+table_entry table_lt "lt"
+table_entry table_max "max"
+table_entry table_min "min"
+table_entry table_neq "neq"
+table_entry table_not "not"
+table_entry table_notanumber "notanumber"
+table_entry table_or "or"
+table_entry table_pi "pi"
+table_entry table_plus "plus"
+table_entry table_sec "sec"
+table_entry table_sech "sech"
+table_entry table_sin "sin"
+table_entry table_sinh "sinh"
+table_entry table_tan "tan"
+table_entry table_tanh "tanh"
+table_entry table_times "times"
+table_entry table_true "true"
+table_entry table_xor "xor"
+
+/-- KNOWN FINDING (rem-sign): `rem ↦ sympy.Mod`; MathML's rem has the sign of the dividend, Mod that of the divisor -/
+theorem table_rem_is_Mod : Gen.mathmlOps.lookup "rem" = some "Mod" := by decide +kernel
+theorem table_rem_differs : entrySound "rem" = false := by decide +kernel
+theorem rem_differs_from_mod (I : Interp) :
+    Meaning.rem.apply I [.num (-7), .num 3] = some (.num (-1)) ∧
+    Meaning.mod.apply I [.num (-7), .num 3] = some (.num 2) := by
+  constructor <;> (simp only [Meaning.apply]; decide +kernel)
+
+/-- the key set of the table is exactly the 50 elements whose meaning is written down above, no duplicates -/
+theorem table_keys :
+    (Gen.mathmlOps.map (·.1)).length = 50 ∧
+    (Gen.mathmlOps.all fun p => (mmlMeaning p.1).isSome && Gen.mathmlOps.lookup p.1 == some p.2) = true ∧
+    (mmlTable.all fun p => (Gen.mathmlOps.lookup p.1).isSome) = true := by
+  refine ⟨?_, ?_, ?_⟩ <;> decide +kernel
+
+/-- every entry except `rem`: the meaning of the class is the meaning of the element -/
+theorem table_sound (tag c : String) (h : Gen.mathmlOps.lookup tag = some c) (hrem : tag ≠ "rem") :
+    mmlMeaning tag = some (syMeaning c) := by
+  have hmem := lookup_mem _ _ _ h
+  have ht := tableCheck_ok
+  simp only [tableCheck, List.all_eq_true] at ht
+  have ht1 := ht _ hmem
+  simp only [Bool.and_eq_true, Bool.or_eq_true, beq_iff_eq] at ht1
+  rcases ht1.2 with hr | hm
+  · exact absurd hr hrem
+  · exact hm
+
+/-- the n-ary (chained) relations are exactly MathML 2's: eq, leq, lt, geq, gt -/
+theorem nary_relations_sound : Gen.naryRelations = ["eq", "geq", "gt", "leq", "lt"] := by decide +kernel
+
+def expectedHandlers : List (String × String) := [
+  ("apply", "_apply_handler"), ("bvar", "_bvar_handler"), ("ci", "_ci_handler"), ("cn", "_cn_handler"),
+  ("degree", "_degree_handler"), ("diff", "_diff_handler"), ("divide", "_divide_handler"), ("log", "_log_handler"),
+  ("logbase", "_logbase_handler"), ("math", "transpile"), ("minus", "_minus_handler"),
+  ("otherwise", "_otherwise_handler"), ("piece", "_piece_handler"), ("piecewise", "_piecewise_handler"),
+  ("power", "_power_handler"), ("root", "_root_handler")]
+
+/-- the explicit handlers: exactly these 16 keys, each bound to the method of its own name -/
+theorem handler_keys_sound :
+    Gen.handlerKeys.length = 16 ∧
+    (expectedHandlers.all fun p => Gen.handlerKeys.lookup p.1 == some p.2) = true ∧
+    (Gen.handlerKeys.all fun p => (Gen.mathmlOps.lookup p.1).isNone) = true := by
+  refine ⟨?_, ?_, ?_⟩ <;> decide +kernel
+
+/-! ## 2. Transpilation preserves meaning -/
+
+/-- **transpile_sound** (partial: `noNullary`, `remFree` exclude the two known findings proved below).
+    For every content-MathML tree of ANY depth and every interpretation (values of the identifiers, of the
+    transcendental functions, of real powers): if the transpiler returns `e` and MathML 2 assigns the tree the value
+    `v`, then the SymPy term `e` evaluates to `v`. Fragment covered by `evalMml`: ci, cn (plain and e-notation),
+    constants, plus/times/minus/divide/power/root±degree/log±logbase/abs/floor/ceiling/max/min/exp/ln/24 trigonometric
+    names (uninterpreted `fn`), n-ary relations (chained), neq, and/or/xor/not, piecewise. -/
+theorem transpile_sound_partial (I : Interp) (t : Mml) (e : Sy) (v : Val)
+    (hn : t.noNullary = true) (hr : t.remFree = true)
+    (ht : transpile t = .ok e) (hv : evalMml I t = some v) : evalSy I e = some v :=
+  sound_aux I (t.size + 1) t (Nat.lt_succ_self _) hn hr e v ht hv
+
+def I0 : Interp := { var := fun _ => .num 3, fn := fun _ x => x, pow := fun a _ => a, constant := fun _ => 0 }
+def ap (xs : List Mml) : Mml := .el "apply" (Mml.ofList xs)
+def op (t : String) : Mml := .el t .nil
+def cnum (s : String) : Mml := .cn none (some s) []
+
+/-- the full-strength statement is FALSE of the code: `<apply><plus/></apply>` is the empty sum 0 in MathML 2, the
+    transpiler returns the class `Add` (KNOWN FINDING arity0) -/
+theorem transpile_sound_fails_nullary :
+    transpile (ap [op "plus"]) = .ok (.cls "Add") ∧ evalMml I0 (ap [op "plus"]) = some (.num 0) ∧
+    evalSy I0 (.cls "Add") = none := by
+  refine ⟨?_, ?_, ?_⟩ <;> decide +kernel
+
+/-- … and of `rem`: MathML 2 gives rem(−7, 3) = −1, the transpiled `Mod(-7, 3)` is 2 (KNOWN FINDING rem-sign) -/
+theorem transpile_sound_fails_rem :
+    transpile (ap [op "rem", cnum "-7", cnum "3"]) = .ok (.app "Mod" (.cons (.num (-7)) (.cons (.num 3) .nil))) ∧
+    evalMml I0 (ap [op "rem", cnum "-7", cnum "3"]) = some (.num (-1)) ∧
+    evalSy I0 (.app "Mod" (.cons (.num (-7)) (.cons (.num 3) .nil))) = some (.num 2) := by
+  refine ⟨?_, ?_, ?_⟩ <;> decide +kernel
+
+
+/-- non-vacuity: a depth-4 tree with a qualifier, a chained relation and a piecewise meets every hypothesis and has a
+    value: piecewise(root₃(x+5) if 1 < x ≤ 4, otherwise −x) at x = 3 -/
+def sample : Mml :=
+  .el "piecewise" (Mml.ofList [
+    .el "piece" (Mml.ofList [ap [op "root", .el "degree" (Mml.ofList [cnum "3"]), ap [op "plus", .ci "x", cnum "5"]],
+                              ap [op "and", ap [op "lt", cnum "1", .ci "x"], ap [op "leq", .ci "x", cnum "4e0"]]]),
+    .el "otherwise" (Mml.ofList [ap [op "minus", .ci "x"]])])
+
+example : sample.noNullary = true ∧ sample.remFree = true ∧ (transpile sample).toOption.isSome = true ∧
+    evalMml I0 sample = some (.num 8) := by
+  refine ⟨?_, ?_, ?_, ?_⟩ <;> decide +kernel
+
+example : evalSy I0 ((transpile sample).toOption.getD .nil) = some (.num 8) := by decide +kernel
+
+/-- the qualifiers are placed as MathML 2 says: `<degree>` first then operand ↦ root(operand, degree) -/
+example : transpile (ap [op "root", .el "degree" (Mml.ofList [.ci "n"]), .ci "x"]) =
+    .ok (.app "root" (.cons (.sym "x") (.cons (.sym "n") .nil))) := by decide +kernel
+example : transpile (ap [op "log", .el "logbase" (Mml.ofList [.ci "b"]), .ci "x"]) =
+    .ok (.app "logb" (.cons (.sym "x") (.cons (.sym "b") .nil))) := by decide +kernel
+example : transpile (ap [op "log", .ci "x"]) = .ok (.app "logb" (.cons (.sym "x") (.cons (.int 10) .nil))) := by
+  decide +kernel
+
+theorem transpile_cons_of_ok {h t : Mml} {a r : Sy} (ha : transpile h = .ok a) (hr : transpile t = .ok r) :
+    transpile (.cons h t) = .ok (.cons a r) := by
+  simp [transpile, ha, hr]
+
+/-- derivatives (outside `evalMml`: uninterpreted): bound variable first, optional integer degree -/
+theorem diff_shape (x y : String) (k : Mml) :
+    transpile (.el "apply" (.cons (.el "diff" k) (.cons (.el "bvar" (.cons (.ci x) .nil)) (.cons (.ci y) .nil)))) =
+      .ok (.app "Derivative" (.cons (.sym y) (.cons (.sym x) (.cons (.int 1) .nil)))) := by
+  have h1 := transpile_wrapped "diff" "_diff_handler" k (by decide +kernel) (by decide)
+  have hb : handlerOf "bvar" = some "_bvar_handler" := by decide +kernel
+  have hx : transpile (.cons (.ci x) .nil) = .ok (.cons (.sym x) .nil) := by simp [transpile]
+  have hbv : transpile (.el "bvar" (.cons (.ci x) .nil)) = .ok (.sym x) := by
+    rw [transpile_container _ _ _ hb (by decide) (by decide) (by decide), hx]; simp [assemble]
+  have hy : transpile (.cons (.ci y) .nil) = .ok (.cons (.sym y) .nil) := by simp [transpile]
+  have hl := transpile_cons_of_ok h1 (transpile_cons_of_ok hbv hy)
+  rw [transpile_container _ _ _ handlerOf_apply (by decide) (by decide) (by decide), hl]
+  simp [assemble, call, callWrapped, diffCb, isBoolConst, mkDeriv, numLike, Sy.srt]
+
+example : transpile (ap [op "diff", .el "bvar" (Mml.ofList [.ci "t", .el "degree" (Mml.ofList [cnum "2"])]), .ci "V"]) =
+    .ok (.app "Derivative" (.cons (.sym "V") (.cons (.sym "t") (.cons (.int 2) .nil)))) := by decide +kernel
+
+
+/-! ## 3. What is rejected — and, precisely, what is not -/
+
+/-- an element without handler that the transpiler visits (not below an operator leaf, whose children are never read) -/
+def visitsUnknown : Mml → Bool
+  | .cons h t => visitsUnknown h || visitsUnknown t
+  | .el tag kids =>
+    match handlerOf tag with
+    | none => true
+    | some m => if m == "_simple_operator_handler" || wrappedHandlers.contains m || m == "transpile" then false
+                else visitsUnknown kids
+  | _ => false
+
+/-- **unknown element ⇒ error**, wherever it occurs, at any depth -/
+theorem transpile_rejects_unknown (t : Mml) (h : visitsUnknown t = true) : ∃ err, transpile t = .error err := by
+  induction t with
+  | cons a b iha ihb =>
+    simp only [visitsUnknown, Bool.or_eq_true] at h
+    simp only [transpile]
+    cases ha : transpile a with
+    | error e => exact ⟨e, rfl⟩
+    | ok x =>
+      cases hb : transpile b with
+      | error e => exact ⟨e, rfl⟩
+      | ok y =>
+        rcases h with h | h
+        · obtain ⟨e, he⟩ := iha h; rw [ha] at he; cases he
+        · obtain ⟨e, he⟩ := ihb h; rw [hb] at he; cases he
+  | el tag kids ih =>
+    simp only [visitsUnknown] at h
+    cases hh : handlerOf tag with
+    | none => exact ⟨.value, by simp [transpile, hh]⟩
+    | some m =>
+      simp only [hh] at h
+      split at h
+      · cases h
+      · rename_i hm
+        simp only [Bool.or_eq_true, not_or, Bool.not_eq_true, beq_eq_false_iff_ne, ne_eq] at hm
+        obtain ⟨e, he⟩ := ih h
+        refine ⟨e, ?_⟩
+        rw [transpile_container _ _ _ hh (by simpa using hm.1.1) (by simpa using hm.1.2) (by simpa using hm.2), he]
+  | _ => simp [visitsUnknown] at h
+
+theorem unknown_tag_is_ValueError (tag : String) (kids : Mml) (h : handlerOf tag = none) :
+    transpile (.el tag kids) = .error .value := by simp [transpile, h]
+
+example : handlerOf "factorial" = none ∧ visitsUnknown (ap [op "plus", .ci "x", ap [op "factorial", .ci "n"]]) = true := by
+  constructor <;> decide +kernel
+
+theorem transpile_ofList_ok : ∀ (ks : List Mml) (r : Sy), transpile (Mml.ofList ks) = .ok r →
+    ∃ rs : List Sy, r = Sy.ofList rs ∧ rs.length = ks.length := by
+  intro ks
+  induction ks with
+  | nil => intro r h; simp [Mml.ofList, transpile] at h; exact ⟨[], by simp [Sy.ofList, h]⟩
+  | cons k ks ih =>
+    intro r h
+    obtain ⟨a, r', rfl, _, hr'⟩ := transpile_cons_ok h
+    obtain ⟨rs, rfl, hl⟩ := ih r' hr'
+    exact ⟨a :: rs, by simp [Sy.ofList], by simp [hl]⟩
+
+/-- the children of a container are transpiled first: their error is the container's error -/
+theorem container_propagates (tag m : String) (kids : Mml) (e : Err) (h : handlerOf tag = some m)
+    (h1 : (m == "_simple_operator_handler") = false) (h2 : m ∉ wrappedHandlers) (h3 : (m == "transpile") = false)
+    (hk : transpile kids = .error e) : transpile (.el tag kids) = .error e := by
+  rw [transpile_container _ _ _ h h1 h2 h3, hk]
+
+/-- `<piece>` without exactly 2 children, `<otherwise>` / `<degree>` without exactly 1, `<bvar>` with none or more than
+    2, `<apply>` / `<logbase>` with none ⇒ error -/
+theorem transpile_rejects_containers (ks : List Mml) (r : Sy) (hr : transpile (Mml.ofList ks) = .ok r) :
+    (ks.length ≠ 2 → transpile (.el "piece" (Mml.ofList ks)) = .error .value) ∧
+    (ks.length ≠ 1 → transpile (.el "otherwise" (Mml.ofList ks)) = .error .value) ∧
+    (ks.length ≠ 1 → transpile (.el "degree" (Mml.ofList ks)) = .error .value) ∧
+    (ks.length ≠ 1 → ks.length ≠ 2 → transpile (.el "bvar" (Mml.ofList ks)) = .error .value) ∧
+    (ks.length = 0 → transpile (.el "apply" (Mml.ofList ks)) = .error .index) ∧
+    (ks.length = 0 → transpile (.el "logbase" (Mml.ofList ks)) = .error .index) := by
+  obtain ⟨rs, rfl, hl⟩ := transpile_ofList_ok ks r hr
+  have hb : handlerOf "bvar" = some "_bvar_handler" := by decide +kernel
+  rw [← hl]
+  refine ⟨?_, ?_, ?_, ?_, ?_, ?_⟩
+  · intro hn
+    rw [transpile_container _ _ _ handlerOf_piece (by decide) (by decide) (by decide), hr]
+    match rs, hn with
+    | [], _ => simp [assemble, Sy.ofList]
+    | [_], _ => simp [assemble, Sy.ofList]
+    | [_, _], hn => simp at hn
+    | _ :: _ :: _ :: _, _ => simp [assemble, Sy.ofList]
+  · intro hn
+    rw [transpile_container _ _ _ handlerOf_otherwise (by decide) (by decide) (by decide), hr]
+    match rs, hn with
+    | [], _ => simp [assemble, Sy.ofList]
+    | [_], hn => simp at hn
+    | _ :: _ :: _, _ => simp [assemble, Sy.ofList]
+  · intro hn
+    rw [transpile_container _ _ _ handlerOf_degree (by decide) (by decide) (by decide), hr]
+    match rs, hn with
+    | [], _ => simp [assemble, Sy.ofList]
+    | [_], hn => simp at hn
+    | _ :: _ :: _, _ => simp [assemble, Sy.ofList]
+  · intro h1 h2
+    rw [transpile_container _ _ _ hb (by decide) (by decide) (by decide), hr]
+    match rs, h1, h2 with
+    | [], _, _ => simp [assemble, Sy.ofList]
+    | [_], h1, _ => simp at h1
+    | [_, _], _, h2 => simp at h2
+    | _ :: _ :: _ :: _, _, _ => simp [assemble, Sy.ofList]
+  · intro h0
+    rw [transpile_container _ _ _ handlerOf_apply (by decide) (by decide) (by decide), hr]
+    match rs, h0 with
+    | [], _ => simp [assemble, Sy.ofList]
+  · intro h0
+    rw [transpile_container _ _ _ handlerOf_logbase (by decide) (by decide) (by decide), hr]
+    match rs, h0 with
+    | [], _ => simp [assemble, Sy.ofList]
+
+example : transpile (.el "piece" (Mml.ofList [.ci "x"])) = .error .value := by decide +kernel
+example : transpile (.el "piecewise" (Mml.ofList [.el "otherwise" (Mml.ofList [.ci "x", .ci "y"])])) = .error .value := by
+  decide +kernel
+
+/-- `<cn>`: a `type` other than e-notation, e-notation without exactly one `<sep/>`, text that is not a number ⇒
+    ValueError -/
+theorem transpile_rejects_cn (ty : String) (text : Option String) (kids : List (Bool × Option String)) (s : String) :
+    (ty ≠ "e-notation" → transpile (.cn (some ty) text kids) = .error .value) ∧
+    ((∀ k, kids ≠ [(true, k)]) → transpile (.cn (some "e-notation") text kids) = .error .value) ∧
+    (pyFloat s.toList = none → transpile (.cn none (some s) kids) = .error .value) := by
+  refine ⟨?_, ?_, ?_⟩
+  · intro h
+    have : (ty == "e-notation") = false := by simpa using h
+    simp [transpile, cnHandler, this]
+  · intro h
+    simp only [transpile, cnHandler]
+    simp
+  · intro h
+    simp [transpile, cnHandler, h]
+
+/-- what counts as malformed: a few of the texts the generator uses -/
+example : (["", " ", ".", "1 2", "1,5", "0x10", "--1", "1e", "e5", "1__0", "_1", "1_", "1e_5", "abc", "1.5.2"].all
+    fun s => pyFloat s.toList == none) = true := by decide +kernel
+example : transpile (.cn (some "e-notation") (some "1e2") [(true, some "3")]) = .error .value := by decide +kernel
+example : transpile (.cn (some "e-notation") (some "1.5") [(true, some "3.0")]) = .error .value := by decide +kernel
+
+/-- operand counts the wrapped callbacks reject (Python's TypeError): minus takes 1 or 2, divide and power exactly 2,
+    root and log 1 or 2 (qualifier included), diff 2 or 3 (bvar included; 3 is the KNOWN FINDING diff/3) -/
+theorem transpile_rejects_wrapped_arity (opk : Mml) (ks : List Mml) (r : Sy) (hr : transpile (Mml.ofList ks) = .ok r)
+    (h0 : ks ≠ []) :
+    (ks.length > 2 → transpile (.el "apply" (.cons (.el "minus" opk) (Mml.ofList ks))) = .error .type) ∧
+    (ks.length ≠ 2 → transpile (.el "apply" (.cons (.el "divide" opk) (Mml.ofList ks))) = .error .type) ∧
+    (ks.length ≠ 2 → transpile (.el "apply" (.cons (.el "power" opk) (Mml.ofList ks))) = .error .type) ∧
+    (ks.length > 2 → transpile (.el "apply" (.cons (.el "root" opk) (Mml.ofList ks))) = .error .type) ∧
+    (ks.length > 2 → transpile (.el "apply" (.cons (.el "log" opk) (Mml.ofList ks))) = .error .type) ∧
+    (ks.length ≠ 2 → ks.length ≠ 3 →
+      transpile (.el "apply" (.cons (.el "diff" opk) (Mml.ofList ks))) = .error .type) := by
+  obtain ⟨rs, rfl, hl⟩ := transpile_ofList_ok ks r hr
+  have hne : rs ≠ [] := by intro h; subst h; simp at hl; exact h0 (List.eq_nil_of_length_eq_zero hl.symm)
+  rw [← hl]
+  have step : ∀ (opn m : String), handlerOf opn = some m → m ∈ wrappedHandlers →
+      transpile (.el "apply" (.cons (.el opn opk) (Mml.ofList ks))) = assemble "_apply_handler" (.cons (.wrapped m) (Sy.ofList rs)) := by
+    intro opn m hh hm
+    rw [transpile_container _ _ _ handlerOf_apply (by decide) (by decide) (by decide),
+      transpile_cons_of_ok (transpile_wrapped opn m opk hh hm) hr]
+  refine ⟨?_, ?_, ?_, ?_, ?_, ?_⟩
+  · intro hn
+    rw [step _ _ handlerOf_minus (by decide)]
+    match rs, hne, hn with
+    | _ :: _ :: _ :: _, _, _ => simp [assemble, Sy.ofList, call, callWrapped]
+  · intro hn
+    rw [step _ _ handlerOf_divide (by decide)]
+    match rs, hne, hn with
+    | [_], _, _ => simp [assemble, Sy.ofList, call, callWrapped]
+    | [_, _], _, hn => simp at hn
+    | _ :: _ :: _ :: _, _, _ => simp [assemble, Sy.ofList, call, callWrapped]
+  · intro hn
+    rw [step _ _ handlerOf_power (by decide)]
+    match rs, hne, hn with
+    | [_], _, _ => simp [assemble, Sy.ofList, call, callWrapped]
+    | [_, _], _, hn => simp at hn
+    | _ :: _ :: _ :: _, _, _ => simp [assemble, Sy.ofList, call, callWrapped]
+  · intro hn
+    rw [step _ _ handlerOf_root (by decide)]
+    match rs, hne, hn with
+    | _ :: _ :: _ :: _, _, _ => simp [assemble, Sy.ofList, call, callWrapped]
+  · intro hn
+    rw [step _ _ handlerOf_log (by decide)]
+    match rs, hne, hn with
+    | _ :: _ :: _ :: _, _, _ => simp [assemble, Sy.ofList, call, callWrapped]
+  · intro h2 h3
+    rw [step "diff" "_diff_handler" (by decide +kernel) (by decide)]
+    match rs, hne, h2, h3 with
+    | [_], _, _, _ => simp [assemble, Sy.ofList, call, callWrapped]
+    | [_, _], _, h2, _ => simp at h2
+    | [_, _, _], _, _, h3 => simp at h3
+    | _ :: _ :: _ :: _ :: _, _, _, _ => simp [assemble, Sy.ofList, call, callWrapped]
+
+
+theorem ofList_len (rs : List Sy) : (Sy.ofList rs).len = rs.length := by
+  induction rs with
+  | nil => rfl
+  | cons a r ih => simp [Sy.ofList, Sy.len, ih]
+
+/-- how an `<apply>` of a table operator to `ks ≠ []` operands unfolds: the operator value called on the operands -/
+theorem apply_simple_unfold (tag c : String) (opk : Mml) (ks : List Mml) (rs : List Sy)
+    (hc : Gen.mathmlOps.lookup tag = some c) (hr : transpile (Mml.ofList ks) = .ok (Sy.ofList rs)) (hne : rs ≠ []) :
+    transpile (.el "apply" (.cons (.el tag opk) (Mml.ofList ks))) =
+      call (if tag ∈ Gen.naryRelations then .rel c else if c ∈ sympyConstants then .const c else .cls c)
+        (Sy.ofList rs) := by
+  rw [transpile_container _ _ _ handlerOf_apply (by decide) (by decide) (by decide),
+    transpile_cons_of_ok (transpile_simple tag opk c hc) hr]
+  match rs, hne with
+  | _ :: _, _ => simp [assemble, Sy.ofList]
+
+/-- **wrong operand count for a table operator ⇒ TypeError**: a class of the generated table applied to a number of
+    operands outside the range its SymPy constructor accepts; a constant (pi, true …) applied to anything -/
+theorem transpile_rejects_class_arity (tag c : String) (opk : Mml) (ks : List Mml) (r : Sy)
+    (hc : Gen.mathmlOps.lookup tag = some c) (hnr : tag ∉ Gen.naryRelations)
+    (hr : transpile (Mml.ofList ks) = .ok r) (h0 : ks ≠ []) :
+    (c ∈ sympyConstants → transpile (.el "apply" (.cons (.el tag opk) (Mml.ofList ks))) = .error .type) ∧
+    (∀ lo hi, c ∉ sympyConstants → sympyArity c = some (lo, hi) →
+        (ks.length < lo ∨ (∃ h, hi = some h ∧ h < ks.length)) →
+        transpile (.el "apply" (.cons (.el tag opk) (Mml.ofList ks))) = .error .type) := by
+  obtain ⟨rs, rfl, hl⟩ := transpile_ofList_ok ks r hr
+  have hne : rs ≠ [] := by intro h; subst h; simp at hl; exact h0 (List.eq_nil_of_length_eq_zero hl.symm)
+  rw [apply_simple_unfold tag c opk ks rs hc hr hne]
+  constructor
+  · intro hcon; simp [hnr, hcon, call]
+  · intro lo hi hcon har hbad
+    simp only [hnr, hcon, if_false, call, callClass, har, ofList_len, hl]
+    rcases hbad with hlt | ⟨h, rfl, hgt⟩
+    · simp [hlt]
+    · simp [hgt]
+
+/-- an n-ary relation with a single operand ⇒ TypeError (IndexError when that operand is `true`/`false` and the
+    relation an inequality: the error message indexes the missing second operand) -/
+theorem transpile_rejects_relation_unary (tag c : String) (opk k : Mml) (a : Sy)
+    (hc : Gen.mathmlOps.lookup tag = some c) (hnr : tag ∈ Gen.naryRelations) (hk : transpile k = .ok a)
+    (har : sympyArity c = some (2, some 2)) :
+    transpile (.el "apply" (.cons (.el tag opk) (Mml.ofList [k]))) = .error .type ∨
+    transpile (.el "apply" (.cons (.el tag opk) (Mml.ofList [k]))) = .error .index := by
+  have hr : transpile (Mml.ofList [k]) = .ok (Sy.ofList [a]) := by
+    simp [Mml.ofList, Sy.ofList, transpile, hk]
+  rw [apply_simple_unfold tag c opk [k] [a] hc hr (by simp)]
+  simp only [hnr, if_true, call]
+  unfold callRel
+  have hl : (Sy.ofList [a]).len = 1 := rfl
+  rw [if_neg (by rw [hl]; decide)]
+  by_cases h1 : (isIneqClass c && (Sy.ofList [a]).any isBoolConst) = true
+  · rw [if_pos h1, if_pos (by rw [hl]; decide)]; right; rfl
+  · rw [if_neg h1]
+    by_cases h2 : (isEqClass c && (Sy.ofList [a]).any isBoolConst && !(Sy.ofList [a]).all isBoolConst &&
+        (Sy.ofList [a]).any isDerivative) = true
+    · rw [if_pos h2]; left; rfl
+    · rw [if_neg h2]; left
+      simp [callClass, har, hl]
+
+/-- SymPy's arity of every class of the table is the arity MathML 2 gives the element — except `ln` (KNOWN FINDING ln/2).
+    `(lo, hi)`: unary 1..1, binary 2..2, n-ary 0.. (plus, times, and, or, xor), 1.. (max, min); constants: not callable -/
+def specArity : List (String × Option (Nat × Option Nat)) := [
+  ("plus", some (0, none)), ("times", some (0, none)), ("and", some (0, none)), ("or", some (0, none)), ("xor", some (0, none)),
+  ("max", some (1, none)), ("min", some (1, none)), ("not", some (1, some 1)),
+  ("eq", some (2, some 2)), ("neq", some (2, some 2)), ("lt", some (2, some 2)), ("leq", some (2, some 2)),
+  ("gt", some (2, some 2)), ("geq", some (2, some 2)), ("rem", some (2, some 2)),
+  ("abs", some (1, some 1)), ("floor", some (1, some 1)), ("ceiling", some (1, some 1)), ("exp", some (1, some 1)),
+  ("ln", some (1, some 1)),
+  ("sin", some (1, some 1)), ("cos", some (1, some 1)), ("tan", some (1, some 1)), ("sec", some (1, some 1)),
+  ("csc", some (1, some 1)), ("cot", some (1, some 1)), ("sinh", some (1, some 1)), ("cosh", some (1, some 1)),
+  ("tanh", some (1, some 1)), ("sech", some (1, some 1)), ("csch", some (1, some 1)), ("coth", some (1, some 1)),
+  ("arcsin", some (1, some 1)), ("arccos", some (1, some 1)), ("arctan", some (1, some 1)), ("arcsec", some (1, some 1)),
+  ("arccsc", some (1, some 1)), ("arccot", some (1, some 1)), ("arcsinh", some (1, some 1)), ("arccosh", some (1, some 1)),
+  ("arctanh", some (1, some 1)), ("arcsech", some (1, some 1)), ("arccsch", some (1, some 1)), ("arccoth", some (1, some 1)),
+  ("pi", none), ("exponentiale", none), ("infinity", none), ("notanumber", none), ("true", none), ("false", none)]
+
+theorem class_arities_match_spec :
+    (Gen.mathmlOps.all fun p =>
+      p.1 == "ln" ||
+      specArity.lookup p.1 == some (if sympyConstants.contains p.2 then none else sympyArity p.2)) = true ∧
+    (Gen.mathmlOps.lookup "ln").bind sympyArity = some (1, some 2) := by
+  constructor <;> decide +kernel
+
+example : transpile (ap [op "sin", .ci "x", .ci "y"]) = .error .type ∧
+    transpile (ap [op "rem", .ci "x"]) = .error .type ∧ transpile (ap [op "neq", .ci "x", .ci "y", .ci "z"]) = .error .type ∧
+    transpile (ap [op "pi", .ci "x"]) = .error .type ∧ transpile (ap [op "eq", .ci "x"]) = .error .type ∧
+    transpile (ap [op "lt", op "true"]) = .error .index ∧ transpile (ap [op "not", .ci "p", .ci "q"]) = .error .type := by
+  refine ⟨?_, ?_, ?_, ?_, ?_, ?_, ?_⟩ <;> decide +kernel
+
+/-! ### The wrong-arity / malformed inputs the code does NOT reject (KNOWN FINDINGS), as theorems about the model -/
+
+/-- arity0: an `<apply>` with the operator as its only child returns the operator itself — for EVERY operator -/
+theorem nullary_apply_returns_operator (tag : String) (opk : Mml) (f : Sy) (h : transpile (.el tag opk) = .ok f) :
+    transpile (.el "apply" (.cons (.el tag opk) .nil)) = .ok f := by
+  rw [transpile_container _ _ _ handlerOf_apply (by decide) (by decide) (by decide),
+    transpile_cons_of_ok h (show transpile .nil = .ok .nil by simp [transpile])]
+  simp [assemble]
+
+example : transpile (ap [op "divide"]) = .ok (.wrapped "_divide_handler") ∧ transpile (ap [op "sin"]) = .ok (.cls "sin") ∧
+    transpile (ap [op "eq"]) = .ok (.rel "Eq") := by refine ⟨?_, ?_, ?_⟩ <;> decide +kernel
+/-- … and such a result is applied by an enclosing `<apply>` -/
+example : transpile (ap [ap [op "plus"], .ci "x", .ci "y"]) = .ok (.app "Add" (.cons (.sym "x") (.cons (.sym "y") .nil))) := by
+  decide +kernel
+
+/-- ln/2: `sympy.ln` is `sympy.log`, the second operand becomes a base -/
+theorem ln_two_operands_accepted :
+    transpile (ap [op "ln", .ci "x", .ci "y"]) = .ok (.app "ln" (.cons (.sym "x") (.cons (.sym "y") .nil))) ∧
+    evalMml I0 (ap [op "ln", .ci "x", .ci "y"]) = none := by constructor <;> decide +kernel
+
+/-- plain-operand-as-qualifier: without `<degree>`/`<logbase>`/`<bvar>` the FIRST of two operands is taken as one -/
+theorem plain_operand_as_qualifier :
+    transpile (ap [op "root", .ci "x", .ci "y"]) = .ok (.app "root" (.cons (.sym "y") (.cons (.sym "x") .nil))) ∧
+    transpile (ap [op "log", .ci "x", .ci "y"]) = .ok (.app "logb" (.cons (.sym "y") (.cons (.sym "x") .nil))) ∧
+    transpile (ap [op "diff", .ci "x", .ci "y"]) =
+      .ok (.app "Derivative" (.cons (.sym "y") (.cons (.sym "x") (.cons (.int 1) .nil)))) ∧
+    evalMml I0 (ap [op "root", .ci "x", .ci "y"]) = none := by refine ⟨?_, ?_, ?_, ?_⟩ <;> decide +kernel
+
+/-- qualifier-misplaced: `<degree>`, `<logbase>`, one-child `<bvar>` are transparent wherever they stand -/
+theorem qualifiers_are_transparent (d : Mml) (a : Sy) (h : transpile d = .ok a) :
+    transpile (.el "degree" (.cons d .nil)) = .ok a ∧ transpile (.el "logbase" (.cons d .nil)) = .ok a ∧
+    transpile (.el "bvar" (.cons d .nil)) = .ok a := by
+  have hl : transpile (.cons d .nil) = .ok (.cons a .nil) := transpile_cons_of_ok h (by simp [transpile])
+  have hb : handlerOf "bvar" = some "_bvar_handler" := by decide +kernel
+  refine ⟨?_, ?_, ?_⟩
+  · rw [transpile_container _ _ _ handlerOf_degree (by decide) (by decide) (by decide), hl]; simp [assemble]
+  · rw [transpile_container _ _ _ handlerOf_logbase (by decide) (by decide) (by decide), hl]; simp [assemble]
+  · rw [transpile_container _ _ _ hb (by decide) (by decide) (by decide), hl]; simp [assemble]
+
+example : transpile (ap [op "plus", .el "degree" (Mml.ofList [.ci "x"]), .ci "y"]) =
+    .ok (.app "Add" (.cons (.sym "x") (.cons (.sym "y") .nil))) := by decide +kernel
+/-- operand first, degree second: operand and degree swap roles -/
+example : transpile (ap [op "root", .ci "y", .el "degree" (Mml.ofList [.ci "x"])]) =
+    .ok (.app "root" (.cons (.sym "x") (.cons (.sym "y") .nil))) := by decide +kernel
+
+/-- logbase-arity:2, diff/3, diff degree truncation, cn leniency, cn children ignored -/
+theorem other_accepted_malformed_inputs :
+    transpile (ap [op "log", .el "logbase" (Mml.ofList [cnum "3", cnum "4"]), .ci "x"]) =
+      .ok (.app "logb" (.cons (.sym "x") (.cons (.num 3) .nil))) ∧
+    transpile (ap [op "diff", .el "bvar" (Mml.ofList [.ci "t"]), .ci "x", op "true"]) =
+      .ok (.app "DerivativeEval" (.cons (.sym "x") (.cons (.sym "t") (.cons (.int 1) (.cons (.const "true") .nil))))) ∧
+    transpile (ap [op "diff", .el "bvar" (Mml.ofList [.ci "t", .el "degree" (Mml.ofList [cnum "2.5"])]), .ci "x"]) =
+      .ok (.app "Derivative" (.cons (.sym "x") (.cons (.sym "t") (.cons (.int 2) .nil)))) ∧
+    transpile (cnum "1_000") = .ok (.num 1000) ∧ transpile (cnum "inf") = .ok (.special "inf") ∧
+    transpile (cnum "-Infinity") = .ok (.special "-inf") ∧ transpile (cnum "nan") = .ok (.special "nan") ∧
+    transpile (.cn none (some "1.5") [(true, some "3")]) = .ok (.num (3/2)) ∧
+    evalMml I0 (cnum "1_000") = none ∧ evalMml I0 (cnum "inf") = none ∧
+    evalMml I0 (.cn none (some "1.5") [(true, some "3")]) = none := by
+  refine ⟨?_, ?_, ?_, ?_, ?_, ?_, ?_, ?_, ?_, ?_, ?_⟩ <;> decide +kernel
+
+end Cellml.Props.C02
